@@ -62,7 +62,7 @@ func diskHash(w *World) uint64 {
 
 func c10Isolation(c *Chooser, env *Env, defective, faults bool) *Outcome {
 	o := &Outcome{}
-	opts := GenOpts{Ties: true, Clone: true, Symlinks: true, Corpus: true, Loose: true, SelfArg: true, PathConfigs: true, MaxRepos: 3, MaxFiles: 3, Defective: defective, Projects: defective}
+	opts := GenOpts{Ties: true, Clone: true, GenIface: true, Symlinks: true, Corpus: true, Loose: true, SelfArg: true, PathConfigs: true, MaxRepos: 3, MaxFiles: 3, Defective: defective, Projects: defective}
 	mw := GenMulti(c, opts)
 	w := mw.World
 	o.World = w
